@@ -165,11 +165,12 @@ func CheckIncoming(stored, incoming *Item) error {
 	}
 
 	// Cas should be ignored if not present
-	if stored.Cas == 0 {
+	if incoming.Cas == 0 {
 		return nil
 	}
 
-	if stored.Cas != incoming.Cas {
+	// BEP 44: cas is the sequence number of the item the put expects to overwrite.
+	if stored.Seq != incoming.Cas {
 		return ErrCasHashMismatched
 	}
 
